@@ -20,6 +20,24 @@
                 cobs = (0 int(value)) | (1 exn): the counter read by name from the row
    A byte string travels as segments: (0 b ...) literal | (1 start step count) arithmetic progression mod 256.
 
+   Optional eleventh field  ckind = (kind d mode)  (absent in the streams that existed before: kind 0, mode 0):
+     kind  0  counters are unsigned DISPLAY digits read by their low nibbles (JLayoutCommon.dcount, as before)
+           1  DISPLAY zoned, signed or not: ZonedCounter.dcount_zoned / Counters.zcount_zoned (estruct.unpack + int)
+           2  COMP-3 / PACKED-DECIMAL:      Counters.dcount_packed / zcount_packed
+           3  COMP / BINARY of d digit positions: Counters.dcount_binary d / zcount_binary d
+     For kind 1..3 "the record carries the count vector" is checked with the specification's ENCODERS (stores_b: the
+     counter's bytes are an image of the value under Spec/Encode.v), never with a decoder; the model of the run is
+     Model/OdoStream.v with the kind's decoder.  For EVERY kind (0 included) every row must IN ADDITION agree with the walk over
+     Python's integers (Model/Counters.v znav_of / znav_path / znav_raw with the kind's Z-valued decoder): one more tie, of that
+     model to the code, on every stream of this check (nested groups and tables of groups included).
+     mode  0  as above (count vectors are natural numbers)
+           1  stream negative-counter: RECFM V only; envs hold SIGNED values.  good = the property with the number of
+              occupied elements max(0, c) (Spec/Layout.v under the clamped vector; a counter read by name must still
+              show the stored signed value).  The model is the walk over Python's integers on every record.
+              known finding 1 (K-negative-counter): trigger = some table's counter holds a negative value in some record
+              (the input alone); pinned = every observed child of the record (start, end, item_count) is what the CLOSED
+              FORM Spec/CountersWf.zfprops gives - a formula that does not go through Gen/LayoutParams.v.
+
    The runner's file is checked against the Spec writers and the records against Spec/Layout.v (lengths, counters);
    a mismatch is verdict 9 (harness error).  [good] is always computed from Spec/Layout.v + the records, for every
    tree the generator sends (the flat family of the theorems and nested shapes alike). *)
@@ -27,7 +45,37 @@ From Coq Require Import ZArith NArith List Bool Arith.
 Import ListNotations.
 Require Import SR.Base.Sx SR.Base.Res SR.Gen.RecfmParams SR.Spec.Recfm SR.Model.Recfm.
 Require Import SR.Spec.Layout SR.Model.Layout SR.Spec.OdoStream SR.Model.OdoStream SR.Judge.JLayoutCommon.
+Require Import SR.Base.Dec SR.Spec.Encode SR.Model.ZonedCounter SR.Model.Counters SR.Spec.CountersWf.
 Open Scope Z_scope.
+
+(* ---- counter kinds *)
+Definition dc_of (kind : Z) (d : nat) : list N -> nat :=
+  if kind =? 1 then dcount_zoned else if kind =? 2 then dcount_packed else if kind =? 3 then dcount_binary d else dcount.
+Definition zdec_of (kind : Z) (d : nat) : list N -> res Z :=
+  if kind =? 1 then zcount_zoned else if kind =? 2 then zcount_packed else if kind =? 3 then zcount_binary d
+  else fun bs => Ok (Z.of_nat (dcount bs)).
+
+(* the field bs is an image of z under the specification's encoder for this kind of counter (Spec/Encode.v only) *)
+Fixpoint digits_of (w : nat) (n : N) : list N :=
+  match w with O => [] | S w' => digits_of w' (n / 10)%N ++ [(n mod 10)%N] end.
+Definition signs_for (z : Z) : list N :=
+  if z <? 0 then neg_signs else if z =? 0 then pos_signs ++ neg_signs else pos_signs.
+Definition stores_b (kind : Z) (d : nat) (bs : list N) (z : Z) : bool :=
+  let a := Z.to_N (Z.abs z) in
+  if kind =? 1 then
+    let w := length bs in
+    (1 <=? w)%nat && (a <? 10 ^ N.of_nat w)%N
+    && existsb (fun s => list_N_eqb bs (enc_zoned (digits_of w a) s)) (signs_for z)
+  else if kind =? 2 then
+    let w := (2 * length bs - 1)%nat in
+    (1 <=? length bs)%nat && (a <? 10 ^ N.of_nat w)%N
+    && existsb (fun s => list_N_eqb bs (enc_packed (digits_of w a) s)) (signs_for z)
+  else if kind =? 3 then
+    match spec_binary_width d with
+    | Some w => (- 2 ^ (8 * Z.of_nat w - 1) <=? z) && (z <? 2 ^ (8 * Z.of_nat w - 1)) && list_N_eqb bs (enc_be w z)
+    | None => false
+    end
+  else (0 <=? z) && (dcount bs =? Z.to_nat z)%nat.
 
 (* ---- byte strings *)
 Fixpoint run_bytes (start stp : N) (count : nat) : list N :=
@@ -81,6 +129,7 @@ Fixpoint offsets (acc : nat) (lens : list nat) : list nat :=
 
 Section Judge.
 Variable t : item.
+Variable dc : list N -> nat.          (* the model's counter decoder (dc_of) *)
 
 (* ---- the property on one observed row, from the specification and the record alone *)
 Definition good_path (e : env) (r : list N) (po : sx) : bool :=
@@ -92,19 +141,22 @@ Definition good_path (e : env) (r : list N) (po : sx) : bool :=
   | inr err => obs_err o (err_code err)
   end.
 
-Definition good_row (want_buflen : nat) (e : env) (r : list N) (row : sx) : bool :=
+(* cv: the value a counter read by name must show (the stored one) *)
+Definition good_row_cv (cv : id -> Z) (want_buflen : nat) (e : env) (r : list N) (row : sx) : bool :=
   (as_Z (nth_sx 0 row) =? Z.of_nat want_buflen)
   && (as_Z (nth_sx 1 row) =? Z.of_nat (extent e t))
   && list_N_eqb (dec_bytes (nth_sx 2 row)) r
   && forallb (good_path e r) (as_list (nth_sx 3 row))
   && forallb (fun co => let o := nth_sx 1 co in
-                        (as_Z (nth_sx 0 o) =? 0) && (as_Z (nth_sx 1 o) =? Z.of_nat (e (as_N (nth_sx 0 co)))))
+                        (as_Z (nth_sx 0 o) =? 0) && (as_Z (nth_sx 1 o) =? cv (as_N (nth_sx 0 co))))
        (as_list (nth_sx 4 row)).
+Definition good_row (want_buflen : nat) (e : env) (r : list N) (row : sx) : bool :=
+  good_row_cv (fun c => Z.of_nat (e c)) want_buflen e r row.
 
 (* ---- the same row against the model *)
 Definition agree_path (buf : list N) (v0 : nav) (po : sx) : bool :=
   let o := nth_sx 1 po in
-  match nav_path dcount buf v0 (path_of (nth_sx 0 po)) with
+  match nav_path dc buf v0 (path_of (nth_sx 0 po)) with
   | Ok v => obs_is o (lstart (n_loc v)) (lend (n_loc v)) (nav_raw buf v)
               (match n_loc v with LArr _ _ _ cnt _ _ => Some cnt | _ => None end)
             && match n_loc v with LArr _ _ _ _ _ _ => true | _ => as_Z (nth_sx 4 o) =? -1 end
@@ -116,8 +168,8 @@ Definition agree_counter (buf : list N) (v0 : nav) (counters : list sx) (co : sx
   match find (fun cp => N.eqb (as_N (nth_sx 0 cp)) (as_N (nth_sx 0 co))) counters with
   | None => false
   | Some cp =>
-      match nav_path dcount buf v0 (path_of (nth_sx 1 cp)) with
-      | Ok v => (as_Z (nth_sx 0 o) =? 0) && (as_Z (nth_sx 1 o) =? Z.of_nat (dcount (nav_raw buf v)))
+      match nav_path dc buf v0 (path_of (nth_sx 1 cp)) with
+      | Ok v => (as_Z (nth_sx 0 o) =? 0) && (as_Z (nth_sx 1 o) =? Z.of_nat (dc (nav_raw buf v)))
       | Err ex => obs_err o (exn_code ex)
       end
   end.
@@ -130,9 +182,150 @@ Definition agree_row (counters : list sx) (m : row N) (row : sx) : bool :=
   && list_N_eqb (dec_bytes (nth_sx 2 row)) (firstn (lend (n_loc v0)) b)
   && forallb (agree_path b v0) (as_list (nth_sx 3 row))
   && forallb (agree_counter b v0 counters) (as_list (nth_sx 4 row)).
+
+(* ---- the same row against the walk over Python's integers (Model/Counters.v) *)
+Variable zdec : list N -> res Z.
+
+Definition zobs_is (o : sx) (st en : Z) (raw : list N) (cnt : option Z) : bool :=
+  (as_Z (nth_sx 0 o) =? 0) && (as_Z (nth_sx 1 o) =? st) && (as_Z (nth_sx 2 o) =? en)
+  && list_N_eqb (as_Ns (nth_sx 3 o)) (firstn 8 raw)
+  && match cnt with Some n => as_Z (nth_sx 4 o) =? n | None => as_Z (nth_sx 4 o) =? -1 end.
+
+Definition zagree_path (buf : list N) (v0 : znav) (po : sx) : bool :=
+  let o := nth_sx 1 po in
+  match znav_path zdec buf v0 (path_of (nth_sx 0 po)) with
+  | Ok v => zobs_is o (zstart (zn_loc v)) (zend (zn_loc v)) (znav_raw buf v)
+              (match zn_loc v with ZArr _ _ _ _ cnt _ _ => Some cnt | _ => None end)
+  | Err ex => obs_err o (exn_code ex)
+  end.
+
+Definition zagree_counter (buf : list N) (v0 : znav) (counters : list sx) (co : sx) : bool :=
+  let o := nth_sx 1 co in
+  match find (fun cp => N.eqb (as_N (nth_sx 0 cp)) (as_N (nth_sx 0 co))) counters with
+  | None => false
+  | Some cp =>
+      match znav_path zdec buf v0 (path_of (nth_sx 1 cp)) with
+      | Ok v => match zdec (znav_value_bytes buf v) with
+                | Ok z => (as_Z (nth_sx 0 o) =? 0) && (as_Z (nth_sx 1 o) =? z)
+                | Err ex => obs_err o (exn_code ex)
+                end
+      | Err ex => obs_err o (exn_code ex)
+      end
+  end.
+
+Definition zagree_row (js : js) (counters : list sx) (b : list N) (row : sx) : bool :=
+  match znav_of zdec b js with
+  | Err _ => false
+  | Ok v0 =>
+      (as_Z (nth_sx 0 row) =? Z.of_nat (length b))
+      && (as_Z (nth_sx 1 row) =? zend (zn_loc v0))
+      && list_N_eqb (dec_bytes (nth_sx 2 row)) (pyslice b 0 (zend (zn_loc v0)))
+      && forallb (zagree_path b v0) (as_list (nth_sx 3 row))
+      && forallb (zagree_counter b v0 counters) (as_list (nth_sx 4 row))
+  end.
+
+(* the rows of a file of records under that walk: Row() builds the navigator eagerly, the first record whose walk raises
+   ends the iteration with that exception *)
+Fixpoint zrows_agree (js : js) (counters : list sx) (recs : list (list N)) (f : fin) (obs_rows : list sx) (obs_end : sx) : bool :=
+  match recs with
+  | [] => match obs_rows with [] => sx_eqb obs_end (fin_obs f) | _ => false end
+  | r :: rest =>
+      match znav_of zdec r js with
+      | Err ex => match obs_rows with [] => sx_eqb obs_end (L [A 1; A (exn_code ex)]) | _ => false end
+      | Ok _ =>
+          match obs_rows with
+          | [] => false
+          | row :: orest => zagree_row js counters r row && zrows_agree js counters rest f orest obs_end
+          end
+      end
+  end.
+
+(* ---- pinned behaviour of finding K-negative-counter: the children of the record where the closed form puts them *)
+Definition pinned_path (ze : id -> Z) (po : sx) : bool :=
+  let o := nth_sx 1 po in
+  match path_of (nth_sx 0 po) with
+  | [PName k] =>
+      match zfind_prop (KName k) (zfprops ze (item_kids t) 0) with
+      | Some l => (as_Z (nth_sx 0 o) =? 0) && (as_Z (nth_sx 1 o) =? zstart l) && (as_Z (nth_sx 2 o) =? zend l)
+                  && match l with ZArr _ _ _ _ cnt _ _ => as_Z (nth_sx 4 o) =? cnt | _ => true end
+      | None => true
+      end
+  | _ => true
+  end.
+Definition pinned_row (ze : id -> Z) (row : sx) : bool :=
+  (as_Z (nth_sx 1 row) =? zend (zn_loc (zflat_nav ze t))) && forallb (pinned_path ze) (as_list (nth_sx 3 row)).
 End Judge.
 
+Definition envz_of (s : sx) : id -> Z :=
+  fun c => match find (fun p => N.eqb (as_N (nth_sx 0 p)) c) (as_list s) with
+           | Some p => as_Z (nth_sx 1 p)
+           | None => 0
+           end.
+
+Fixpoint odo_tables (x : item) : list id :=
+  (match item_oc x with Odo c => [c] | _ => [] end)
+  ++ match x with Elem _ _ _ _ => [] | Group _ _ _ ks => odo_tables_kids ks end
+with odo_tables_kids (ks : items) : list id :=
+  match ks with INil => [] | ICons x xs => odo_tables x ++ odo_tables_kids xs end.
+
+(* ---- mode 1: signed count vectors, RECFM V *)
+Definition judge_signed (c : sx) (kind : Z) (d : nat) : sx :=
+  let t := item_of (nth_sx 0 c) in
+  let recfm := as_Z (nth_sx 1 c) in
+  let ezs := map envz_of (as_list (nth_sx 3 c)) in
+  let counters := as_list (nth_sx 4 c) in
+  let rs := map dec_bytes (as_list (nth_sx 5 c)) in
+  let image := dec_bytes (nth_sx 7 c) in
+  let schema := nth_sx 8 c in
+  let run := nth_sx 9 c in
+  let zdec := zdec_of kind d in
+  let clamp (ez : id -> Z) : env := fun i => Z.to_nat (ez i) in
+  let rec_valid (ez : id -> Z) (r : list N) : bool :=
+    let e := clamp ez in
+    (length r =? extent e t)%nat
+    && forallb (fun cp =>
+         match spec_nav e (VItem t) 0 (path_of (nth_sx 1 cp)) with
+         | inl (v, st) => stores_b kind d (slice r st (st + view_size e v)) (ez (as_N (nth_sx 0 cp)))
+         | inr _ => false
+         end) counters in
+  let image_ok := (recfm =? 1) && list_N_eqb image (write_V rs) && legal_V rs && flat_odo t && (1 <=? kind) in
+  if negb (forall2b rec_valid ezs rs && image_ok) then L [A 9; A 0; L [A 0]] else
+  let js := build t in
+  let obs_rows := as_list (nth_sx 1 run) in
+  let obs_end := nth_sx 2 run in
+  (* property: one row per record, laid out with max(0, c) occupied elements, the iteration ends normally - or, what a
+     repaired walk would do, the first record in which a table's counter is negative is REFUSED with ValueError after the
+     records before it have been delivered *)
+  let neg_rec (ez : id -> Z) : bool := existsb (fun cc => ez cc <? 0) (odo_tables t) in
+  let clean_prefix := (fix go (l : list (id -> Z)) : nat := match l with [] => O | ez :: r => if neg_rec ez then O else S (go r) end) ezs in
+  let rows_good (n : nat) :=
+    forall2b (fun (p : (id -> Z) * list N) row => good_row_cv t (fst p) (length (snd p)) (clamp (fst p)) (snd p) row)
+      (firstn n (combine ezs rs)) obs_rows in
+  let good :=
+    (as_Z (nth_sx 0 run) =? 0)
+    && ((sx_eqb obs_end (L [A 0]) && (length obs_rows =? length rs)%nat && rows_good (length rs))
+        || ((clean_prefix <? length rs)%nat && sx_eqb obs_end (L [A 1; A 1])
+            && (length obs_rows =? clean_prefix)%nat && rows_good clean_prefix)) in
+  (* correspondence: the walk over Python's integers on every record the reader delivers *)
+  let schema_agrees := sx_eqb schema (L [A 0; sx_of_js js]) in
+  let '(recs, f, _) := V_record_iter 0 image in
+  let run_agrees := (as_Z (nth_sx 0 run) =? 0) && zrows_agree zdec js counters recs f obs_rows obs_end in
+  let agree := schema_agrees && run_agrees in
+  let trigger := existsb (fun ez => existsb (fun cc => ez cc <? 0) (odo_tables t)) ezs in
+  let pinned := (length obs_rows =? length ezs)%nat && forall2b (fun ez row => pinned_row t ez row) ezs obs_rows in
+  (* the exemption covers the finding's own wrong behaviour (pinned) - or nothing at all, once the walk refuses such records *)
+  let known : option Z := if trigger && (good || pinned) then Some 1 else None in
+  let branch := 60 + kind + (if trigger then 4 else 0) in
+  verdict known good agree branch
+    (L [of_bool schema_agrees; of_bool run_agrees; of_bool trigger; of_bool pinned; of_nat (length recs); fin_obs f]).
+
 Definition judge (c : sx) : sx :=
+  let ckind := nth_sx 10 c in
+  let kind := as_Z (nth_sx 0 ckind) in
+  let d := as_nat (nth_sx 1 ckind) in
+  if as_Z (nth_sx 2 ckind) =? 1 then judge_signed c kind d else
+  let dcount := dc_of kind d in
+  let zdec := zdec_of kind d in
   let t := item_of (nth_sx 0 c) in
   let recfm := as_Z (nth_sx 1 c) in
   let lrecl := match as_Z (nth_sx 0 (nth_sx 2 c)) with 1 => Some (as_nat (nth_sx 1 (nth_sx 2 c))) | _ => None end in
@@ -149,7 +342,7 @@ Definition judge (c : sx) : sx :=
     (length r =? extent e t)%nat
     && forallb (fun cp =>
          match spec_nav e (VItem t) 0 (path_of (nth_sx 1 cp)) with
-         | inl (v, st) => (dcount (slice r st (st + view_size e v)) =? e (as_N (nth_sx 0 cp)))%nat
+         | inl (v, st) => stores_b kind d (slice r st (st + view_size e v)) (Z.of_nat (e (as_N (nth_sx 0 cp))))
          | inr _ => false
          end) counters in
   let blocks := cut blocking rs in
@@ -199,15 +392,21 @@ Definition judge (c : sx) : sx :=
     | Err ex => obs_err run (exn_code ex)
     | Ok (mrows, f) =>
         (as_Z (nth_sx 0 run) =? 0) && sx_eqb obs_end (fin_obs f)
-        && forall2b (agree_row counters) mrows obs_rows
+        && forall2b (agree_row dcount counters) mrows obs_rows
     end in
-  let agree := schema_agrees && run_agrees in
+  (* every delivered row also against the walk over Python's integers (kind 0: the low-nibble decoder as a Z) *)
+  let zrun_agrees :=
+    match model with
+    | Err _ => true
+    | Ok (mrows, _) => forall2b (fun m row => zagree_row zdec js counters (row_buf m) row) mrows obs_rows
+    end in
+  let agree := schema_agrees && run_agrees && zrun_agrees in
   let known : option Z := None in
   let branch :=
     if no_lrecl then 90 else
-    10 * recfm + 1 + (if flat_odo t then 0 else 1) + (if (B <? total)%nat then 2 else 0) in
+    10 * recfm + 1 + (if flat_odo t then 0 else 1) + (if (B <? total)%nat then 2 else 0) + 100 * kind in
   verdict known good agree branch
-    (L [of_bool schema_agrees; of_bool run_agrees;
+    (L [of_bool schema_agrees; of_bool run_agrees; of_bool zrun_agrees;
         match model with
         | Err ex => L [A 1; A (exn_code ex)]
         | Ok (mrows, f) => L [A 0; of_nat (length mrows); fin_obs f;
